@@ -307,8 +307,12 @@ class TriggerHandler:
     def __actions_for_location(self, event, file, line, function, frame):
         actions = []
         for trigger in self._tp_config:
-            if trigger.at_location(event, file, line, function, frame):
-                actions += trigger.actions
+            try:
+                if trigger.at_location(event, file, line, function, frame):
+                    actions += trigger.actions
+            except BaseException:
+                # a tracepoint that cannot tell where it is affects only itself: the others of the event still act
+                pass
         return actions
 
     def __process_call_backs(self, ctx: 'TriggerContext', arg: any, frame: FrameType, event: str, file: str, line: int,
